@@ -71,7 +71,9 @@ def slice_seqs(labels, tier, maxk, salt=0):
     return cfgs
 
 
-def build_tree(inputs, output, size, ssa, cfg, proj_vals):
+def build_tree(inputs, output, size, ssa, cfg, proj_vals, extra=None, arrays=None):
+    """extra: the same set of sliced indices is reached by a detour -- `extra` is sliced as well, one slice is
+    evaluated (numbering / contraction caches are warm), then `extra` is restored"""
     from cotengra.core import ContractionTree
 
     tree = ContractionTree.from_path(inputs, output, size, ssa_path=ssa)
@@ -80,7 +82,21 @@ def build_tree(inputs, output, size, ssa, cfg, proj_vals):
             tree.remove_ind_(ix)
         else:
             tree.remove_ind_(ix, project=proj_vals[ix])
+    if extra is not None:
+        tree.remove_ind_(extra)
+        tree.slice_key(0)
+        if arrays is not None:
+            tree.contract_slice(arrays, 0)
+        tree.restore_ind_(extra)
     return tree
+
+
+def extra_for(labels, cfg, k):
+    """every other case takes the detour (the label restored is the last one that is not in the configuration)"""
+    if not cfg or k % 2 == 0:
+        return None
+    rest = [c for c in labels if c not in {ix for ix, _ in cfg}]
+    return rest[-1] if rest else None
 
 
 # ---------------------------------------------------------------------------
@@ -196,7 +212,7 @@ def run_reassembly(item, rec):
                     if tier == "quick" and len(trees) > 1 and (ci + ti) % len(trees):
                         # quick: each slicing configuration on one (rotating) tree
                         continue
-                    case = dict(inputs=list(inputs), output=output, size=size, cfg=[list(x) for x in cfg], ssa=[list(p) for p in ssa])
+                    case = dict(inputs=list(inputs), output=output, size=size, cfg=[list(x) for x in cfg], ssa=[list(p) for p in ssa], extra=extra_for(labels, cfg, ci + ti + si))
 
                     def harness(ctx, cfg=cfg, ssa=ssa, case=case, size=size, arrays=arrays):
                         try:
@@ -209,7 +225,7 @@ def run_reassembly(item, rec):
 
                     def harness_body(ctx, cfg, ssa, case, size, arrays):
                         proj = {ix: symx.sym_int("p_" + ix, 0, size[ix] - 1) for ix, m in cfg if m == "p"}
-                        tree = build_tree(inputs, output, size, ssa, cfg, proj)
+                        tree = build_tree(inputs, output, size, ssa, cfg, proj, extra=case.get("extra"), arrays=arrays)
                         # projected values are concretised when used to index (forks over range)
                         got = tree.contract(arrays)
                         pv = {ix: tree.sliced_inds[ix].project for ix in proj}
@@ -332,7 +348,7 @@ def replay(v):
     size = case["size"]
     tries = [[np.array(a, dtype=float).reshape(tuple(size[c] for c in t)) for a, t in zip(v["arrays"], inputs)], symarr.generic_arrays(inputs, size, seed=9)]
     for arrays in tries:
-        tree = build_tree(inputs, output, size, ssa, cfg, proj)
+        tree = build_tree(inputs, output, size, ssa, cfg, proj, extra=case.get("extra"), arrays=arrays)
         pvv = {ix: proj[ix] for ix, m in cfg if m == "p"}
         want = expand_projected(symarr.np_reference(inputs, output, size, arrays, fixed=pvv), output, pvv)
         try:
